@@ -384,6 +384,10 @@ impl Gen {
                     // recursion guard: only non-recursive bodies, but may call earlier words
                 }
                 self.seq(left / 2, depth + 1, out, &mut s1, true, false, &mut l1);
+                if self.rng.chance(1, 8) {
+                    // a user-defined immediate word: later uses run while the source is being compiled
+                    out.push("immediate".into());
+                }
                 out.push(";".into());
                 self.defs.push(name);
             } else if r < 88 && !self.defs.is_empty() {
